@@ -1,6 +1,7 @@
 package main
 
 import (
+	"go/constant"
 	"fmt"
 	"go/token"
 	"go/types"
@@ -226,7 +227,7 @@ func c20StrategyEmissions(p *Prog, l *Ledger) {
 		var emits []*ssa.Call
 		allInstrs(f, func(ins ssa.Instruction) {
 			if call, ok := ins.(*ssa.Call); ok {
-				if isSampleListenerInvoke(p, p.CallOf(call)) {
+				if isSampleListenerInvoke(p, p.CallOf(call)) && !c20IsCounterListener(p, p.CallOf(call)) {
 					emits = append(emits, call)
 				}
 			}
@@ -257,7 +258,7 @@ func c20StrategyEmissions(p *Prog, l *Ledger) {
 			})
 			pa.Each(func(step int, ins ssa.Instruction) bool {
 				call, ok := ins.(*ssa.Call)
-				if !ok || !isSampleListenerInvoke(p, p.CallOf(call)) {
+				if !ok || !isSampleListenerInvoke(p, p.CallOf(call)) || c20IsCounterListener(p, p.CallOf(call)) {
 					return true
 				}
 				nem++
@@ -295,6 +296,29 @@ func c20StrategyEmissions(p *Prog, l *Ledger) {
 				if !okVal {
 					bad = append(bad, fmt.Sprintf("%s: the emitted value is not this decision's in-flight counter: %s", p.At(call), valueString(arg)))
 					return true
+				}
+				// the listener and the counter belong to the same object: a partition's distribution reports that partition's
+				// count, not the strategy-wide one
+				if c := p.CallOf(call); c != nil && c.Recv != nil {
+					if _, lbase, ok := loadedField(strip(c.Recv, false)); ok {
+						var cbase ssa.Value
+						if _, b, ok := loadedField(arg); ok {
+							cbase = b
+						}
+						for _, d := range incs {
+							if arg == d.Result {
+								cbase = d.Base
+							}
+						}
+						if ac, ok := arg.(*ssa.Call); ok && atomicOpOf(p.CallOf(ac).Name) == "Load" {
+							if _, b, ok := atomicTarget(ac.Call.Args[0]); ok {
+								cbase = b
+							}
+						}
+						if cbase != nil && AccessPath(lbase).String() != AccessPath(cbase).String() {
+							bad = append(bad, fmt.Sprintf("%s: the sample listener of %s is fed the counter of %s", p.At(call), AccessPath(lbase).String(), AccessPath(cbase).String()))
+						}
+					}
 				}
 				if readAt != nil {
 					for _, d := range incs {
@@ -383,7 +407,16 @@ func c20Gauges(p *Prog, l *Ledger) {
 				}
 				// strategies and partitions: the limit gauge must read the enforced limit field
 				detail := fmt.Sprintf("bound to %s.%s on %s", ap, m.Name(), what)
-				if pk == "strategy" {
+				isLimitGauge := true
+				if idc, ok := strip(c.Args[0], false).(*ssa.Const); ok && idc.Value != nil && idc.Value.Kind() == constant.String {
+					// a gauge registered under another ID (partition count, backlog capacity, ...) is only required to be live
+					if tp := p.TPkgs["core"]; tp != nil {
+						if ml, ok := tp.Scope().Lookup("MetricLimit").(*types.Const); ok && ml.Val().Kind() == constant.String {
+							isLimitGauge = constant.StringVal(idc.Value) == constant.StringVal(ml.Val())
+						}
+					}
+				}
+				if pk == "strategy" && isLimitGauge {
 					if why := c20ReadsEnforcedLimit(p, m); why != "" {
 						l.Bad("O3", key, p.At(ins), "the limit gauge does not report the enforced limit: "+why)
 						return
@@ -1115,4 +1148,31 @@ func c20WindowInFlight(p *Prog, l *Ledger) {
 func valueInstr(v ssa.Value) ssa.Instruction {
 	ins, _ := v.(ssa.Instruction)
 	return ins
+}
+
+// c20IsCounterListener: the listener a sample is sent to lives in a field that is only ever assigned the result of
+// RegisterCount - an event counter (refusals, unmatched requests), not the in-flight distribution.
+func c20IsCounterListener(p *Prog, c *Call) bool {
+	if c == nil || c.Recv == nil {
+		return false
+	}
+	fr, _, ok := loadedField(strip(c.Recv, false))
+	if !ok {
+		return false
+	}
+	n, counts := 0, 0
+	for _, g := range p.Funcs {
+		for _, a := range p.Accesses(g) {
+			if !a.Write || a.Pointee || !sameField(a.Field, fr) {
+				continue
+			}
+			n++
+			if call, ok := strip(a.Val, false).(*ssa.Call); ok {
+				if cc := p.CallOf(call); cc.Iface != nil && cc.Iface.Name() == "RegisterCount" {
+					counts++
+				}
+			}
+		}
+	}
+	return n > 0 && n == counts
 }
